@@ -2,6 +2,7 @@
 expression resolution, guard atoms).  Pure stdlib.  Nothing here executes the analysed
 program: everything is computed from the MIR/ADT/const facts exported by tools/mirfacts."""
 import json
+import os
 import re
 import sys
 
@@ -62,6 +63,28 @@ def ty_head(ty):
     return t if i < 0 else t[:i]
 
 
+def _load_facts(p):
+    """json facts with a marshal side-cache (same content, ~5x faster to load)."""
+    import marshal
+    mp = p + '.marshal'
+    try:
+        if os.path.getmtime(mp) >= os.path.getmtime(p):
+            with open(mp, 'rb') as f:
+                return marshal.load(f)
+    except (OSError, ValueError, EOFError, TypeError):
+        pass
+    with open(p) as f:
+        d = json.load(f)
+    try:
+        tmp = '%s.%d.tmp' % (mp, os.getpid())
+        with open(tmp, 'wb') as f:
+            marshal.dump(d, f)
+        os.replace(tmp, mp)
+    except OSError:
+        pass
+    return d
+
+
 class Facts:
     def __init__(self, paths):
         self.crates = {}
@@ -70,8 +93,7 @@ class Facts:
         self.consts = {}
         self.hir = {}
         for p in paths:
-            with open(p) as f:
-                d = json.load(f)
+            d = _load_facts(p)
             cn = d['crate']
             self.crates[cn] = d
             for a in d['adts']:
